@@ -221,16 +221,28 @@ func init() {
 }
 `
 
+// c19Helper2Src: the same helper as a second package (its own probe numbers) next to a .inc.js file without a final newline.
+func c19Helper2Src() string {
+	src := strings.Replace(c19HelperSrc, "package helper", "package helper2", 1)
+	for i := 3; i >= 0; i-- {
+		src = strings.ReplaceAll(src, fmt.Sprintf("P(%d)", 80+i), fmt.Sprintf("P(%d)", 84+i))
+		src = strings.ReplaceAll(src, fmt.Sprintf("// P%d", 80+i), fmt.Sprintf("// P%d", 84+i))
+	}
+	return src
+}
+
 // c19ProbeFiles: the probe program; %HELPER% is the import path of its helper package.
 func c19ProbeFiles() map[string]string {
 	mod := diffrun.ModName("c19_probe")
 	main := strings.Replace(c19ProbeSrc, "import \"github.com/gopherjs/gopherjs/js\"", "import (\n\t\"github.com/gopherjs/gopherjs/js\"\n\n\t\""+mod+"/helper\"\n)", 1)
-	main = strings.Replace(main, "\tmoreForms(a)\n", "\tmoreForms(a + helper.Twice(2) + helper.Table[\"k\"])\n", 1)
+	main = strings.Replace(main, "\""+mod+"/helper\"\n", "\""+mod+"/helper\"\n\t\""+mod+"/helper2\"\n", 1)
+	main = strings.Replace(main, "\tmoreForms(a)\n", "\tmoreForms(a + helper.Twice(2) + helper.Table[\"k\"] + helper2.Twice(4) + helper2.Table[\"k\"])\n", 1)
 	return map[string]string{
-		"main.go":                   main,
-		"helper/helper.go":          c19HelperSrc,
-		"helper/a_comments.inc.js":  "// nothing but comments\n/* in this file */\n",
-		"helper/b_nonewline.inc.js": "$global.c19helper = function() { return 1; };",
+		"main.go":                    main,
+		"helper/helper.go":           c19HelperSrc,
+		"helper/a_comments.inc.js":   "// nothing but comments\n/* in this file */\n",
+		"helper2/helper2.go":         c19Helper2Src(),
+		"helper2/b_nonewline.inc.js": "$global.c19helper = function() { return 1; };",
 	}
 }
 
